@@ -30,6 +30,8 @@ TYPES: dict[str, dict[str, tuple[str, str]]] = {
         'D': ('a', 'a'), 'Di': ('a', 'a'), 'Dx': ('a', 'a'), 'Dz': ('a', 'a'), 'Dzi': ('a', 'a'),
         'S': ('a', 'a'), 'Si': ('a', 'a'), 'Sx': ('a', 'a'), 'Q': ('a', 'a'),
         'k2': ('a', 'a'), 'km': ('a', 'a'), 'kmi': ('a', 'a'), 'I': ('a', 'a'),
+        # a user-defined SPD operator without a hand-written transpose: Y.T is the library's lazy transpose, Yti its lazy inverse
+        'Y': ('a', 'a'), 'Yt': ('a', 'a'), 'Yti': ('a', 'a'),
     },
     'BLK': {
         'Rw': ('L', 'a'), 'Cl': ('a', 'L'), 'Dg': ('L', 'L'), 'Dd': ('L', 'L'), 'Ddi': ('L', 'L'),
@@ -70,6 +72,33 @@ def typed_chains(domain: str, max_len: int, min_len: int = 1):
 
 
 _BUILT: dict[str, dict] = {}
+
+
+_TOY = {}
+
+
+def _toy_spd_class():
+    """A user-level operator class (defined once per process): square, dense symmetric positive-definite action, NO transpose
+    method of its own - `.T` is the library's lazy TransposeOperator."""
+    if 'cls' not in _TOY:
+        import equinox
+        import jax
+
+        from furax._base.core import AbstractLinearOperator, square
+
+        @square
+        class ToySPD(AbstractLinearOperator):
+            matrix: jax.Array
+            _in_structure: object = equinox.field(static=True)
+
+            def mv(self, x):
+                return self.matrix @ x
+
+            def in_structure(self):
+                return self._in_structure
+
+        _TOY['cls'] = ToySPD
+    return _TOY['cls']
 
 
 def build(domain: str, variant: int = 0, fresh: bool = False) -> dict:
@@ -157,7 +186,10 @@ def build(domain: str, variant: int = 0, fresh: bool = False) -> dict:
         Dz = DiagonalOperator(arr([2.0, 0.0]), in_structure=a)
         S = dense([[2.0, 1.0], [1.0, 3.0]], a)
         km = hom(-0.5, a)
+        Y = _toy_spd_class()(arr([[3.0, 1.0], [1.0, 2.0]]), a)
+        Yt = Y.T
         atoms = {
+            'Y': Y, 'Yt': Yt, 'Yti': Yt.I,
             'D': D, 'Di': D.I, 'Dx': DiagonalOperator(arr([2.0, 4.0]), in_structure=a), 'Dz': Dz, 'Dzi': Dz.I,
             'S': S, 'Si': S.I, 'Sx': dense([[2.0, 1.0], [1.0, 3.0]], a), 'Q': dense([[0.0, 1.0], [-1.0, 2.0]], a),
             'k2': hom(2.0, a), 'km': km, 'kmi': km.I, 'I': IdentityOperator(a),
